@@ -168,6 +168,8 @@ class ProgGen:
         need = {'count': 0, 'not': 0, 'sum_prod': 2}.get(agg, 1)
         # candidate columns for aggregation: plain i32 columns (also the value column of an i32 max-lattice)
         int_cols = [i for i, t in enumerate(rel.tys) if isinstance(t, T.IntTy)]
+        if rel.is_lat and cfg.no_par_lat_agg:
+            int_cols = []      # F10: an aggregated column of a lattice does not compile under the parallel macros
         if len(int_cols) < need:
             agg, need = 'count', 0
         agg_cols = rng.sample(int_cols, need)
@@ -332,7 +334,7 @@ class ProgGen:
 
 
 def default_cfg(**kw):
-    cfg = Cfg(p_lattice=0.35, lat_kinds=['maxi', 'duali', 'maxi', 'duali', 'bool', 'opti', 'set', 'bset', 'constprop', 'tup'],
+    cfg = Cfg(no_par_lat_agg=True, p_lattice=0.35, lat_kinds=['maxi', 'duali', 'maxi', 'duali', 'bool', 'opti', 'set', 'bset', 'constprop', 'tup'],
               p_neg=0.15, p_agg=0.15,
               aggs=['count', 'count', 'sum', 'min', 'max', 'mean', 'not', 'percentile', 'second_highest', 'lowest3', 'nothing', 'sum_prod'])
     cfg.__dict__.update(kw)
@@ -343,7 +345,7 @@ def gen_program(rng, cfg=None):
     return ProgGen(rng, cfg or default_cfg()).gen()
 
 
-def add_probes(prog, rng, max_probes=3):
+def add_probes(prog, rng, max_probes=3, no_par_lat_agg=True):
     """multiplicity probes (DESIGN 3.4): count / sum strata over a sample of relations and bound-column subsets,
     so that a duplicated index entry becomes a wrong, publicly visible number. Returns a new Program."""
     rels = list(prog.rels)
@@ -369,7 +371,7 @@ def add_probes(prog, rng, max_probes=3):
                               [Clause(r.name, args1),
                                Agg('n', 'count', [], r.name, [AVar('k') if i == kc else AWild() for i in range(len(r.tys))], None, '(n as i32)', int)]))
             others = [i for i in int_cols if i != kc]
-            if others and rng.random() < 0.5:
+            if others and rng.random() < 0.5 and not (r.is_lat and no_par_lat_agg):
                 sc = rng.choice(others)
                 name = 'pb%d' % n
                 n += 1
